@@ -152,6 +152,8 @@ def run(ctx: Ctx):
         if nchecked[0] < len(behs) // 2 and not ctx.violations:
             raise tlc.MachineryError("vacuity: statistics compared at too few quiescent points")
     # C->S
+    if len(ctx.violations) > 15:
+        return          # the run already fails: skip the random runs (a broken tree makes them slow)
     n = ctx.pick(200, 2500)
     digests = {}
     for i in range(n):
